@@ -307,6 +307,7 @@ def gen_tg(rng, tier, cls, i):
         # the filler must be recognisable: never one of the labels
         while any(t == case["fill"] for t, _, _ in tr):
             case["fill"] += "~"
+    case["write_shuffled"] = rng.random() < 0.25
     return case
 
 
